@@ -1,3 +1,4 @@
+import Gopki.Model.Paths
 import Gopki.Base.Forest2
 import Gopki.Model.Db
 /-! # C18 — broken hierarchies are refused up front; non-config files are left alone
@@ -25,5 +26,22 @@ theorem C18_isConsistent_iff (s : State) (hn : (aliases s.ents).Nodup) :
     a root with one subscriber is accepted -/
 example : Forest.bfs ([("x", some "x")] : Forest.Ents String) 2 [] (Forest.roots [("x", some "x")]) = some [] := by decide
 example : Forest.bfs ([("r", none), ("s", some "r")] : Forest.Ents String) 3 [] (Forest.roots [("r", none), ("s", some "r")]) = some ["r", "s"] := by decide
+
+/-- **each entity's alias is its file's base name, in whatever sub-directory, and its artifact is written next to its
+    config** (when no explicit alias is given): for every directory part, every base name without `/` and every
+    suffix without `.` -/
+theorem C18_alias_and_artifact_path (dir base ext : List Char) (hbase : '/' ∉ base) (hext : '.' ∉ ext) :
+    Paths.baseAlias (dir ++ '/' :: base ++ '.' :: ext) = some base ∧
+    Paths.artifactFileName (dir ++ '/' :: base ++ '.' :: ext) = some (dir ++ '/' :: base ++ ['.', 'p', 'e', 'm']) := by
+  refine ⟨Paths.alias_is_base_name dir base ext hbase hext, ?_⟩
+  have e : dir ++ '/' :: base ++ '.' :: ext = (dir ++ ('/' :: base)) ++ ('.' :: ext) := by simp
+  rw [e, Paths.artifact_next_to_config _ ext hext]
+
+/-- whatever passes the suffix filter has a well-defined alias and artifact name (no slice out of range) -/
+theorem C18_config_names_have_artifacts (p : List Char) (h : Paths.isConfigName p = true) :
+    (Paths.artifactFileName p).isSome = true ∧ (Paths.baseAlias p).isSome = true := Paths.isConfigName_has_dot p h
+
+example : Paths.baseAlias "ca/users/leaf.yml".toList = some "leaf".toList ∧
+    Paths.artifactFileName "ca/users/leaf.yml".toList = some "ca/users/leaf.pem".toList := by decide
 
 end C18
